@@ -130,6 +130,14 @@ def failures(pid, inst, res):
             elif v != "ok":
                 bad.append(("C16-wiring-%s" % v, "%s clauses %s: the returned schedule is not reassign(set_transitions("
                             "local-search result, optimised transitions))" % (k, v)))
+        # the local-search stage runs exactly when the instance lists maintenance slots (Network::maintenance_considered,
+        # Network.v): an answer produced without it is not "the start solution improved by the local search"
+        ci = [l.split()[1] for l in res["impl"] if l.startswith("CONSIDERED ")]
+        want = "true" if inst.get("maintenanceSlots") else "false"
+        if ci and ci[0] != want:
+            bad.append(("C16-search-stage-%s" % ("skipped" if want == "true" else "run-without-slots"),
+                        "the instance lists %d maintenance slot(s) but the predicate that guards the local-search stage is %s"
+                        % (len(inst.get("maintenanceSlots") or []), ci[0])))
     return bad
 
 
